@@ -176,6 +176,9 @@ func c14Judge(c spec.Case, evs []spec.Event, d *Death) CaseResult {
 	if o.Panic != "" {
 		viol("panic", "host panicked: "+o.Panic)
 	}
+	if o.StartErr != "" && (o.RetryOK || o.RetryProtocol != "") {
+		viol("refused-start-accepted-on-retry", fmt.Sprintf("Start was refused (%s) but the same client then reports Start err=%q Protocol()=%q", trunc(o.StartErr, 80), o.RetryErr, o.RetryProtocol))
+	}
 	worked := o.StartErr == "" && o.ClientErr == "" && (o.PingErr == "" || (o.CallErr == "" && o.Tag != ""))
 	fully := o.StartErr == "" && o.ClientErr == "" && o.PingErr == "" && o.CallErr == "" && o.H2PErr == "" && o.P2HErr == "" && o.BigErr == ""
 	switch class {
